@@ -116,7 +116,7 @@ def index_upto(w, A, start, i0dom, i0val, dom, val, x):
 
 class ReadIndex(Spec):
     func = 'ZODB.FileStorage.FileStorage:read_index'
-    props = ('C01', 'C04', 'C09', 'C20')
+    props = ('C01', 'C04', 'C09', 'C18', 'C20')
     cases = ('rw', 'ro')
     max_paths = 20000
     assumptions = ('A-TAIL-ASCII: the status byte of a leftover tail header is ASCII (bytes beyond the '
